@@ -115,7 +115,9 @@ func (r Relation) ArrayEnumerator() ValueEnumerator {
 }
 
 func (r Relation) With(v Value) Set {
-	if t, is := v.(Tuple); is && r.attrs.EqualTupleAttrs(t) {
+	// Only a tuple that the set builder files under this relation's heading joins its rows: a
+	// specialised (@, @char) tuple added to a relation over {@, @char} has a bucket of its own.
+	if t, is := v.(Tuple); is && r.attrs.EqualTupleAttrs(t) && t.getBucket().String() == r.unionSetSubsetBucket() {
 		return newRelation(r.attrs, r.p, r.rows.With(r.tupleToValues(t)))
 	}
 	return toUnionSetWithItem(r, v)
